@@ -35,7 +35,7 @@ RULE = ("each run is a history of 1-6 client operations (get with/without query,
         "unreadable) and the bytes its peer decrypted plus the order of the pin lookup and the "
         "first application send are checked. distinct = distinct (operation, classification, "
         "reader) vectors; non-trivial = at least one changed or unreadable connection occurred")
-PROBES = ["impostor_connection", "unreadable_connection", "impostor_never_reads",
+PROBES = ["ca_validation_on_as_well", "impostor_connection", "unreadable_connection", "impostor_never_reads",
           "impostor_lazy", "upload_to_impostor", "redirect_hop_to_impostor", "ordering_checked",
           "large_upload", "sql_fault_during_operation", "overlapping_operations_one_endpoint"]
 COMPONENTS = {
@@ -55,10 +55,15 @@ def run_one(ch):
     res = RunResult()
     w = TofuWorld(ch, "c11")
     w.cut = ch.choose("cut", 2)
+    # a share of the runs: CA validation switched on as well (verify_ssl=True) against
+    # certificates that all pass it - only the pin can tell a changed one
+    ca_mode = ch.chance("ca_verified", 0.12)
+    pool, cw, good = (fx.CA_CERTS, [1] * len(fx.CA_CERTS), fx.CA_CERTS) if ca_mode else \
+        (CERTS, CW, fx.SERVER_CERTS)
     certs = {}
     for h in HOSTS:
         for p in PORTS:
-            certs[(h, p)] = CERTS[ch.choose("cert0", len(CERTS), CW)]
+            certs[(h, p)] = pool[ch.choose("cert0", len(pool), cw)]
             w.reader_mode[(h, p)] = ch.pick("reader", ["eager", "lazy", "never"], [5, 2, 2])
     w.setup_servers(certs)
     nops = 1 + ch.choose("nops", 6)
@@ -77,12 +82,12 @@ def run_one(ch):
         return f"gemini://{h}{'' if p == 1965 else ':%d' % p}{path}"
 
     async def main():
-        client = GeminiClient(timeout=8.0, tofu_db_path=pathlib.Path(w.db_path))
+        client = GeminiClient(timeout=8.0, tofu_db_path=pathlib.Path(w.db_path), verify_ssl=ca_mode)
         db = client.tofu_db
         # pre-pin some endpoints to certificates that may differ from what is served
         for _ in range(ch.choose("prepin", 4)):
             key = endpoint("pp")
-            c = ch.pick("ppcert", fx.SERVER_CERTS)
+            c = ch.pick("ppcert", good)
             db.trust(key[0], key[1], load_cert(c))
             model[key] = fx.fp(c)
             hist.append(f"pre-pin {key[0]}:{key[1]} {c}")
@@ -97,8 +102,8 @@ def run_one(ch):
                 key = endpoint("ov")
                 if w.redirect.get(key) is not None:
                     continue
-                c1 = ch.pick("ov1", fx.SERVER_CERTS)
-                c2 = ch.pick("ov2", fx.SERVER_CERTS)
+                c1 = ch.pick("ov1", good)
+                c2 = ch.pick("ov2", good)
                 w.servers[key].cert_queue = [c1, c2]
                 kinds = [ch.pick("ovk1", ["get", "upload"]), ch.pick("ovk2", ["get", "upload"])]
                 hist.append(f"overlapping {kinds[0]}+{kinds[1]} on {key[0]}:{key[1]} presenting {c1},{c2}")
@@ -127,7 +132,7 @@ def run_one(ch):
                 continue
             if op == 3:
                 key = endpoint("sw")
-                c = CERTS[ch.choose("swcert", len(CERTS), CW)]
+                c = pool[ch.choose("swcert", len(pool), cw)]
                 cur = w.servers[key].cert
                 if cur in fx.CLONE_CERTS and ch.chance("toclone", 0.6):
                     c = fx.CLONE_CERTS[1 - fx.CLONE_CERTS.index(cur)]
@@ -139,7 +144,7 @@ def run_one(ch):
                 tgt = endpoint("rdt")
                 if ch.chance("rd_to_impostor", 0.5) and tgt != key and tgt not in model:
                     # make the redirect target an impostor: pin it to another certificate
-                    other = ch.pick("rdpin", fx.SERVER_CERTS)
+                    other = ch.pick("rdpin", good)
                     if other != w.servers[tgt].cert:
                         db.trust(tgt[0], tgt[1], load_cert(other))
                         model[tgt] = fx.fp(other)
@@ -225,7 +230,19 @@ def run_one(ch):
             new = w.conns_since(marks)
             judged.append((hist[-1], kind, plan, new, got, seam_mark))
 
-    w.run(main)
+    import os
+    old_ca = os.environ.get("SSL_CERT_FILE")
+    if ca_mode:
+        os.environ["SSL_CERT_FILE"] = fx.crt(fx.CA_FILE_NAME)
+        res.stats["ca_validation_on_as_well"] += 1
+    try:
+        w.run(main)
+    finally:
+        if ca_mode:
+            if old_ca is None:
+                os.environ.pop("SSL_CERT_FILE", None)
+            else:
+                os.environ["SSL_CERT_FILE"] = old_ca
 
     seamlog = list(SEAM.log)
     for desc, kind, plan, new, got, seam_mark in judged:
